@@ -23,10 +23,27 @@ model says were merged into it (Variable.aliases), the statement gives
 and the same numbers must be in r's row of variable_metadata_function.  model.alias_relation and
 Variable.aliases must agree with the union-find (membership and signs) and every eliminated variable must be
 accounted for by exactly one survivor.
+
+Attribute bound.  Besides "every set of <= k attributes" the quick tier runs *merge matrices*: the attribute
+combinations the merge loop branches on are complete for every (surviving variable, alias) pair, whichever
+variable pymoca keeps.  SF: per variable start in {absent, 0, a, b, -a, p, -p} x fixed in {absent, true}
+(own start absent / present x alias start absent / equal / different / negated / zero / symbolic x fixed
+of either side); BD: per variable bounds in {none, min only, max only, both}.  n = 2: full products over
+every structure; n = 3: reduced alphabets over tree x sign x kind.
+
+Histories.  A class can also be completed by a LATER detect_aliases pass (old_alias_relation in the merge
+loop).  Every link of a tree is early or late:
+  H2: simplify({detect_aliases}); simplify({replace_constant_values, detect_aliases}) with the late links
+      written `a = (-)b + c`, c a constant 0 (not an alias equation until c is replaced);
+  HI: simplify({detect_aliases, iterative_simplification}) with the late links written
+      `a = (-)b + (u -/+ w)` where `u = (-)w` is the first early link (an alias equation only after the
+      first pass has substituted u).
+The same oracle is applied after the last pass (the union-find holds early and late links).
 """
 import hashlib
 import itertools
 import math
+import os
 from functools import lru_cache
 
 import numpy as np
@@ -91,6 +108,33 @@ def structures(n, mode):
     return out
 
 
+# histories: name -> list of option sets given to successive simplify() calls
+HISTORIES = {
+    "H2": ({"detect_aliases": True}, {"replace_constant_values": True, "detect_aliases": True}),
+    "HI": ({"detect_aliases": True, "iterative_simplification": True},),
+}
+LATE_H2 = {"eq+": "%s = %s + c", "eq-": "%s = -%s + c", "z+": "%s - %s = c", "z-": "%s + %s = c"}
+LATE_HI = {"eq+": "%s = %s + (%s)", "eq-": "%s = -%s + (%s)", "z+": "%s - %s = %s", "z-": "%s + %s = %s"}
+
+
+def two_pass(n, mode, hname):
+    """(n, kind, links, (history, late)) -- every structure of the mode x every split of its links into early
+    (plain alias equations) and late (become alias equations for the second pass only).  H2: every split, the
+    all-early one included (a second pass that has nothing new to do); HI: at least one early link (the late
+    form is built from it)."""
+    out = []
+    for st in structures(n, mode):
+        for late in itertools.product((False, True), repeat=n - 1):
+            if hname == "HI" and all(late):
+                continue
+            out.append(st + ((hname, late),))
+    return out
+
+
+def hist_of(struct):
+    return struct[3] if len(struct) > 3 else None
+
+
 # ----------------------------------------------------------------------------
 # attribute sets
 
@@ -153,10 +197,63 @@ def start_pairs(n, seed):
     return out
 
 
+def profiles_product(n, per_var):
+    """per_var(i) -> list of attribute tuples ((attr, value), ...) for variable i; -> every choice of one profile per
+    variable, as attribute sets."""
+    out = []
+    for choice in itertools.product(*[per_var(i) for i in range(1, n + 1)]):
+        out.append(tuple((i, a, v) for i, prof in zip(range(1, n + 1), choice) for a, v in prof))
+    return out
+
+
+def sf_profiles(seed, wide):
+    """start x fixed profiles of one variable.  a / b: two different numbers, -a: the negated one (the consistent value
+    on a negative alias, a 'different' value for pymoca's conflict test, which compares without the sign), 0: explicit
+    zero (not the _DefaultValue), p / -p: symbolic."""
+    t = tables(seed)
+    a, b = t["start"](0), t["start"](4)
+    starts = [None, a, b, -a] + ([0.0, "p", "-p"] if wide else [])
+    out = []
+    for st in starts:
+        for fx in (None, True):
+            out.append((() if st is None else (("start", st),)) + (() if fx is None else (("fixed", fx),)))
+    return out
+
+
+def bd_profiles(seed, i, wide):
+    """bound profiles of one variable: none / min only / max only / both (wide: from the 2-value grids, else one
+    variable-specific value each)."""
+    t = tables(seed)
+    mins = t["min"] if wide else (t["min_i"](i),)
+    maxs = t["max"] if wide else (t["max_i"](i),)
+    out = [()]
+    out += [(("min", lo),) for lo in mins]
+    out += [(("max", hi),) for hi in maxs]
+    out += [(("min", lo), ("max", hi)) for lo in mins for hi in maxs]
+    return out
+
+
 @lru_cache(maxsize=None)
 def attr_sets(n, key, seed):
     if key == "A0":
         return ((),)
+    if key == "A1C":
+        return tuple((s,) for s in singles(n, "VC", seed))
+    if key == "SF":  # n = 2: 14 profiles per variable
+        return tuple(profiles_product(n, lambda i: sf_profiles(seed, True)))
+    if key == "SF3":  # 8 profiles per variable
+        return tuple(profiles_product(n, lambda i: sf_profiles(seed, False)))
+    if key == "BD":  # 9 profiles per variable
+        return tuple(profiles_product(n, lambda i: bd_profiles(seed, i, True)))
+    if key == "BD3":  # 4 profiles per variable
+        return tuple(profiles_product(n, lambda i: bd_profiles(seed, i, False)))
+    if key == "SFP":  # SF3 x at most one further attribute (min / max / nominal) on any variable
+        t = tables(seed)
+        pay = [()] + [((i, a, t[a + "_i"](i)),) for i in range(1, n + 1) for a in ("min", "max", "nominal")]
+        return tuple(tuple(sorted(x + y, key=lambda e: (e[0], ATTR_ORDER.index(e[1])))) for x in profiles_product(n, lambda i: sf_profiles(seed, False)) for y in pay)
+    if key == "SFBD":  # 8 x 9 profiles per variable
+        sf = sf_profiles(seed, False)
+        return tuple(profiles_product(n, lambda i: [x + y for x in sf for y in bd_profiles(seed, i, True)]))
     if key == "A1":
         return tuple((s,) for s in singles(n, "VA", seed))
     if key == "A2A":
@@ -172,31 +269,53 @@ def attr_sets(n, key, seed):
     raise KeyError(key)
 
 
-# tier -> [(structure mode, n, attribute-set keys)]
+# tier -> [(structure mode, n, attribute-set keys, history or None)]
 PLAN = {
     "quick": [
-        ("full", 2, ("A0", "A1", "A2A")),
-        ("full", 3, ("A0", "A1")),
-        ("orient", 3, ("A2B",)),
+        ("full", 2, ("A0", "A1", "A2A", "SF", "BD"), None),
+        ("plain", 2, ("SFP",), None),
+        ("full", 3, ("A0",), None),
+        ("plain", 3, ("A1",), None),
+        ("orient", 3, ("A2B",), None),
+        ("basic", 3, ("SF3", "BD3"), None),
+        ("orient", 3, ("A0", "A1C"), "H2"),
+        ("orient", 3, ("A0", "A1C"), "HI"),
     ],
     "thorough": [
-        ("full", 2, ("A0", "A1", "A2A", "A3B")),
-        ("full", 3, ("A0", "A1", "A2A")),
-        ("plain", 3, ("A3B",)),
-        ("full", 4, ("A0",)),
-        ("orient", 4, ("A1",)),
-        ("basic", 4, ("A2B", "A3C")),
+        ("full", 2, ("A0", "A1", "A2A", "A3B", "SF", "BD"), None),
+        ("plain", 2, ("SFP", "SFBD"), None),
+        ("full", 3, ("A0", "A1", "A2A"), None),
+        ("plain", 3, ("A3B",), None),
+        ("orient", 3, ("SF3", "BD3"), None),
+        ("full", 4, ("A0",), None),
+        ("orient", 4, ("A1",), None),
+        ("basic", 4, ("A2B", "A3C"), None),
+        ("orient", 3, ("A0", "A1"), "H2"),
+        ("orient", 3, ("A0", "A1"), "HI"),
+        ("basic", 3, ("A2B", "SF3"), "H2"),
+        ("basic", 3, ("A2B", "SF3"), "HI"),
+        ("basic", 4, ("A0", "A1C"), "H2"),
+        ("basic", 4, ("A0", "A1C"), "HI"),
     ],
 }
 KEY_DOC = {
     "A0": "no attribute",
     "A1": "1 attribute out of per-variable {min x2, max x2, nominal x2, fixed=false, fixed=true, start, max=p, start=p}",
+    "A1C": "1 attribute out of per-variable {min, max, nominal (one variable-specific value each), fixed=true, start}",
     "A2A": "2 attributes out of the A1 alphabet (not the same attribute of the same variable twice) + explicit `start = 0` on one "
     "variable against an explicit start on another",
     "A2B": "2 attributes out of per-variable {min x2, max x2, nominal x2, fixed=true, start} + start=0 / start=p on one variable "
     "against an explicit start on another + start=p on two variables",
     "A3B": "3 attributes out of per-variable {min x2, max x2, nominal x2, fixed=true, start}",
     "A3C": "3 attributes out of per-variable {min, max, nominal (one variable-specific value each), fixed=true, start}",
+    "SF": "start/fixed matrix: one profile per variable out of start {absent, a, b, -a, 0, p, -p} x fixed {absent, true}, every "
+    "combination over the variables (14^n sets, up to 2n attributes)",
+    "SF3": "start/fixed matrix with start {absent, a, b, -a} x fixed {absent, true} per variable (8^n sets)",
+    "BD": "bounds matrix: one profile per variable out of {none, min x2, max x2, (min, max) x4}, every combination (9^n sets)",
+    "BD3": "bounds matrix with {none, min, max, (min, max)} per variable, one variable-specific value each (4^n sets)",
+    "SFP": "SF3 x at most one further attribute out of {min, max, nominal} on any variable (what a branch of the start handling "
+    "could drag along)",
+    "SFBD": "product of the SF3 and BD profiles per variable ((8 x 9)^n sets)",
 }
 MODE_DOC = {
     "full": "every labeled tree x both orientations of every link x 4 forms per link x every permutation of the equation list x 3 kinds",
@@ -204,26 +323,39 @@ MODE_DOC = {
     "orient": "as plain with the equation list in one order",
     "basic": "every labeled tree x sign per link x 3 kinds, links written `v_low = (-)v_high`, one order",
 }
+HIST_DOC = {
+    "H2": "x every split of the links into early / late (all-early included); late links `a = (-)b + c`, constant c = 0; "
+    "simplify({detect_aliases}) then simplify({replace_constant_values, detect_aliases})",
+    "HI": "x every split of the links into early / late with >= 1 early link; late links `a = (-)b + (u -/+ w)` for the first early "
+    "link u = (-)w; simplify({detect_aliases, iterative_simplification})",
+}
 TARGET = 240  # programs per job
 
 
-def make_jobs(tier, seed):
+def level_structures(mode, n, hname):
+    return structures(n, mode) if hname is None else two_pass(n, mode, hname)
+
+
+def make_jobs(tier, seed, only=None):
     jobs = []
     levels = []
-    for mode, n, keys in PLAN[tier]:
-        ss = structures(n, mode)
+    for li, (mode, n, keys, hname) in enumerate(PLAN[tier]):
+        if only is not None and li not in only:
+            continue
+        ss = level_structures(mode, n, hname)
         for key in keys:
             m = len(attr_sets(n, key, seed))
-            levels.append({"structures": mode, "n": n, "attributes": key, "n_structures": len(ss), "n_attribute_sets": m, "programs": len(ss) * m})
+            lv = len(levels)
+            levels.append({"structures": mode, "n": n, "attributes": key, "history": hname or "single pass", "n_structures": len(ss), "n_attribute_sets": m, "programs": len(ss) * m})
             if m >= TARGET:
                 parts = -(-m // TARGET)
                 for s in ss:
                     for p in range(parts):
-                        jobs.append(((s,), key, p, parts, seed))
+                        jobs.append(((s,), key, p, parts, seed, lv))
             else:
                 g = max(1, TARGET // m)
                 for k in range(0, len(ss), g):
-                    jobs.append((tuple(ss[k : k + g]), key, 0, 1, seed))
+                    jobs.append((tuple(ss[k : k + g]), key, 0, 1, seed, lv))
     return jobs, levels
 
 
@@ -232,29 +364,42 @@ def make_jobs(tier, seed):
 
 
 def num(v):
-    if v == "p":
-        return "p"
+    if v in ("p", "-p"):
+        return v
     if isinstance(v, bool):
         return "true" if v else "false"
     return repr(float(v))
 
 
 def text_of(struct, aset):
-    n, kind, eqs = struct
+    n, kind, eqs = struct[:3]
+    hist = hist_of(struct)
+    hname, late = hist if hist else (None, (False,) * len(eqs))
     per = {}
     for i, a, v in aset:
         per.setdefault(i, {})[a] = v
     lines = ["model M"]
-    if any(v == "p" for _, _, v in aset):
+    if any(v in ("p", "-p") for _, _, v in aset):
         lines.append("  parameter Real p = 2.5;")
     for i in range(1, n + 1):
         d = "  %sReal v%d" % ("input " if (kind == "input" and i == 1) else "", i)
         if i in per:
             d += "(%s)" % ", ".join("%s = %s" % (a, num(per[i][a])) for a in ATTR_ORDER if a in per[i])
         lines.append(d + ";")
+    zero = None
+    if hname == "H2" and any(late):
+        lines.append("  constant Real c = 0;")
+    elif hname == "HI" and any(late):
+        u, w, f = [e for e, l in zip(eqs, late) if not l][0]
+        zero = "v%d %s v%d" % (u, "-" if FORMS[f][1] > 0 else "+", w)  # 0 by the first early link
     lines.append("equation")
-    for a, b, f in eqs:
-        lines.append("  " + FORMS[f][0] % ("v%d" % a, "v%d" % b) + ";")
+    for (a, b, f), l in zip(eqs, late):
+        if not l:
+            lines.append("  " + FORMS[f][0] % ("v%d" % a, "v%d" % b) + ";")
+        elif hname == "H2":
+            lines.append("  " + LATE_H2[f] % ("v%d" % a, "v%d" % b) + ";")
+        else:
+            lines.append("  " + LATE_HI[f] % ("v%d" % a, "v%d" % b, zero) + ";")
     if kind == "state":
         lines.append("  der(v1) = 1;")
     elif kind == "alg":
@@ -299,7 +444,8 @@ class SignedUF:
 
 
 def uf_of(struct):
-    n, kind, eqs = struct
+    """Early and late links alike: a late link `a = s b + 0` states a = s b."""
+    n, kind, eqs = struct[:3]
     uf = SignedUF(["v%d" % i for i in range(1, n + 1)])
     for a, b, f in eqs:
         uf.union("v%d" % a, "v%d" % b, FORMS[f][1])
@@ -307,7 +453,7 @@ def uf_of(struct):
 
 
 def val(v, pv):
-    return pv if v == "p" else float(v)
+    return pv if v == "p" else (-pv if v == "-p" else float(v))
 
 
 def expected(r, aliases, per, pv):
@@ -368,12 +514,17 @@ MD_COL = {a: k for k, a in enumerate(c13.ATTRS)}
 
 
 def spec_of(struct, aset, text):
-    n, kind, eqs = struct
-    return {"n": n, "kind": kind, "eqs": [list(e) for e in eqs], "attrs": [list(a) for a in aset], "text": text}
+    n, kind, eqs = struct[:3]
+    spec = {"n": n, "kind": kind, "eqs": [list(e) for e in eqs], "attrs": [list(a) for a in aset], "text": text}
+    if hist_of(struct):
+        spec["history"] = [hist_of(struct)[0], list(hist_of(struct)[1])]
+    return spec
 
 
 def from_spec(spec):
     struct = (spec["n"], spec["kind"], tuple((a, b, f) for a, b, f in spec["eqs"]))
+    if spec.get("history"):
+        struct += ((spec["history"][0], tuple(bool(x) for x in spec["history"][1])),)
     aset = tuple((i, a, v) for i, a, v in spec["attrs"])
     return struct, aset
 
@@ -384,27 +535,37 @@ def check_one(struct, aset):
     from pymoca import parser
     from pymoca.backends.casadi import generator
 
-    n, kind, eqs = struct
+    n, kind, eqs = struct[:3]
+    hist = hist_of(struct)
+    hname, late = hist if hist else (None, (False,) * len(eqs))
     text = text_of(struct, aset)
     case = spec_of(struct, aset, text)
-    info = {"text": text, "eliminated": 0, "nontrivial": False, "canon": None, "neg": False}
+    info = {"text": text, "eliminated": 0, "nontrivial": False, "canon": None, "neg": False, "later_pass": False}
     names = ["v%d" % i for i in range(1, n + 1)]
     uf = uf_of(struct)
     has_neg = any(FORMS[f][1] < 0 for _, _, f in eqs)
     info["neg"] = has_neg
-    tag = kind + ("/neg" if has_neg else "/pos")
+    htag = "/" + hname if hname else ""
+    tag = kind + ("/neg" if has_neg else "/pos") + htag
 
+    after_first = None
     try:
         tree = parser.parse(text, bypass_cache=True)
         if tree is None:
             raise SyntaxError("pymoca reports a syntax error")
         m = generator.generate(tree, "M", dict(OPTS))
-        m.simplify(dict(OPTS))
+        if hname is None:
+            m.simplify(dict(OPTS))
+        else:
+            for k, o in enumerate(HISTORIES[hname]):
+                m.simplify(dict(o))
+                if k == 0 and len(HISTORIES[hname]) > 1:
+                    after_first = {v.symbol.name() for g in MD_GROUPS[:3] for v in getattr(m, g)}
         fmd = m.variable_metadata_function
     except Exception as e:
         # signature = failing site + the attribute kinds present (symbolic ones marked), not the structure
-        feats = "+".join(sorted("%s=p" % a if v == "p" else a for _, a, v in aset)) or "no-attributes"
-        sig = "simplify-raises:%s:%s%s" % (common.exc_sig(e), feats, ":negative-link" if has_neg else "")
+        feats = "+".join(sorted("%s=p" % a if v in ("p", "-p") else a for _, a, v in aset)) or "no-attributes"
+        sig = "simplify-raises:%s:%s%s%s" % (common.exc_sig(e), feats, ":negative-link" if has_neg else "", htag.replace("/", ":"))
         return [(sig, "generation / alias elimination raises %r\n%s" % (e, text), case)], info
 
     where = {}
@@ -414,6 +575,10 @@ def check_one(struct, aset):
     remaining = [x for x in names if x in where]
     gone = [x for x in names if x not in where]
     info["eliminated"] = len(gone)
+    if hname == "H2":
+        info["later_pass"] = bool(after_first - set(where))
+    elif hname == "HI":
+        info["later_pass"] = len(gone) > sum(1 for l in late if not l)  # the first pass cannot see the late links
     viol = []
 
     # --- which variable stands for which: Variable.aliases and alias_relation against the union-find ----
@@ -422,6 +587,16 @@ def check_one(struct, aset):
     rel_items = {}
     for c, al in m.alias_relation:
         rel_items[c] = set(al)
+    # a variable that is listed as somebody's alias but was left in the model: reported alone (its own stale alias
+    # set would only repeat the finding under other names)
+    for r in remaining:
+        for sa in sorted(set(where[r][2].aliases) | rel_items.get(r, set())):
+            a = sa[1:] if sa.startswith("-") else sa
+            if a in where:
+                sig = "alias-not-eliminated:" + tag + ((":negative-alias" if sa.startswith("-") else ":positive-alias") if hname else "")
+                viol.append((sig, "%s lists alias %r, which is still a model variable (not merged, not substituted)\n%s" % (r, sa, text), case))
+    if viol:
+        return viol, info
     for r in remaining:
         al = set(where[r][2].aliases)
         if al != rel_items.get(r, set()):
@@ -435,9 +610,6 @@ def check_one(struct, aset):
                 struct_ok = False
             elif want != s:
                 viol.append(("alias-sign:" + tag, "%s lists alias %r, the equations imply %s = %s%s\n%s" % (r, sa, a, "-" if want < 0 else "", r, text), case))
-                struct_ok = False
-            elif a in where:
-                viol.append(("alias-not-eliminated:" + tag, "%s lists alias %r, which is still a model variable\n%s" % (r, sa, text), case))
                 struct_ok = False
             elif a in claimed:
                 viol.append(("alias-claimed-twice:" + tag, "%s is an alias of both %s and %s\n%s" % (a, claimed[a][0], r, text), case))
@@ -465,7 +637,7 @@ def check_one(struct, aset):
     per = {}
     for i, a, v in aset:
         per.setdefault("v%d" % i, {})[a] = v
-    has_p = any(v == "p" for _, _, v in aset)
+    has_p = any(v in ("p", "-p") for _, _, v in aset)
     points = P_POINTS if has_p else (0.0,)
     info["nontrivial"] = bool(gone) and bool(aset)
     if gone and kind == "alg":
@@ -476,7 +648,7 @@ def check_one(struct, aset):
             continue  # nothing was merged into r; its attributes are C13's business
         gi, row, var = where[r]
         cls_neg = any(s < 0 for s in aliases.values())
-        ctag = kind + ("/negative-alias" if cls_neg else "/positive-aliases")
+        ctag = kind + ("/negative-alias" if cls_neg else "/positive-aliases") + htag
         got_obj = {a: [] for a in ATTR_ORDER}
         got_md = {a: [] for a in ATTR_ORDER}
         exp = []
@@ -526,19 +698,27 @@ PER_SIG = 3  # violations carried back per signature and job (all are counted)
 
 
 def work(job):
-    structs, key, part, parts, seed = job
-    res = {"programs": 0, "nontrivial": [], "all": [], "viol": [], "sigs": {}, "eliminated": {}, "canon": {}, "neg_nontrivial": 0, "violating": 0}
+    import time
+
+    structs, key, part, parts, seed, lv = job
+    t0 = time.process_time()
+    res = {"level": lv, "programs": 0, "nontrivial": [], "all": [], "viol": [], "sigs": {}, "eliminated": {}, "canon": {}, "neg_nontrivial": 0, "violating": 0, "later_pass": 0, "later_pass_neg": 0}
     for s in structs:
         sets = attr_sets(s[0], key, seed)
+        hn = hist_of(s)[0] if hist_of(s) else ""
         for aset in sets[part::parts]:
             viol, info = check_one(s, aset)
             res["programs"] += 1
-            h = h64(info["text"])
+            h = h64(hn + info["text"])
             res["all"].append(h)
             if info["nontrivial"]:
                 res["nontrivial"].append(h)
                 if info["neg"]:
                     res["neg_nontrivial"] += 1
+            if info["later_pass"]:
+                res["later_pass"] += 1
+                if info["neg"]:
+                    res["later_pass_neg"] += 1
             k = "%d-of-%d" % (info["eliminated"], s[0])
             res["eliminated"][k] = res["eliminated"].get(k, 0) + 1
             if info["canon"]:
@@ -552,11 +732,16 @@ def work(job):
                     res["viol"].append((sig, msg, case))
     res["nontrivial"] = b"".join(res["nontrivial"])
     res["all"] = b"".join(res["all"])
+    res["cpu"] = time.process_time() - t0
     return res
 
 
 def run(ctx):
-    jobs, levels = make_jobs(ctx.tier, ctx.seed)
+    only = None  # development aid: restrict to some PLAN entries (never claimed as the tier's evidence)
+    if os.environ.get("VERIF_C16_ONLY"):
+        only = {int(x) for x in os.environ["VERIF_C16_ONLY"].split(",")}
+        ctx.cap("VERIF_C16_ONLY=%s: only these PLAN entries were run" % os.environ["VERIF_C16_ONLY"])
+    jobs, levels = make_jobs(ctx.tier, ctx.seed, only)
     if jobs:  # the seed rotates the order of work only
         k = (ctx.seed * 7919) % len(jobs)
         jobs = jobs[k:] + jobs[:k]
@@ -564,12 +749,20 @@ def run(ctx):
         results = pool.map(work, jobs, chunksize=1)
     programs = 0
     elim, canon, sigs = {}, {}, {}
-    neg_nt = violating = 0
+    neg_nt = violating = later = later_neg = 0
+    cpu = 0.0
     kept = {}
+    for lv in levels:
+        lv.update({"cpu_s": 0.0, "completed_by_a_later_pass": 0})
     for r in results:
         programs += r["programs"]
         neg_nt += r["neg_nontrivial"]
         violating += r["violating"]
+        later += r["later_pass"]
+        later_neg += r["later_pass_neg"]
+        cpu += r["cpu"]
+        levels[r["level"]]["cpu_s"] += r["cpu"]
+        levels[r["level"]]["completed_by_a_later_pass"] += r["later_pass"]
         for d, src in ((elim, r["eliminated"]), (canon, r["canon"]), (sigs, r["sigs"])):
             for k, v in src.items():
                 d[k] = d.get(k, 0) + v
@@ -581,10 +774,19 @@ def run(ctx):
     distinct = np.unique(np.frombuffer(b"".join(r["all"] for r in results), dtype=np.uint64))
     if programs and len(nt) == 0:
         raise RuntimeError("no program had a variable eliminated: alias detection never fired, the property was not exercised")
-    for j in (0, len(jobs) // 2, len(jobs) - 1):
-        structs, key, part, parts, seed = jobs[j]
+    for lv in levels:
+        lv["cpu_s"] = round(lv["cpu_s"], 1)
+        if lv["history"] == "single pass":
+            del lv["completed_by_a_later_pass"]
+    if any(lv["history"] != "single pass" for lv in levels) and later_neg == 0:
+        raise RuntimeError("no history had a later pass eliminate a variable over a negative link: the multi-pass merge was not exercised")
+    by_level = {}
+    for j, jb in enumerate(jobs):
+        by_level[jb[5]] = j
+    for j in sorted(set([0, len(jobs) // 2, len(jobs) - 1] + [j for lv, j in by_level.items() if levels[lv]["history"] != "single pass"]))[:6]:
+        structs, key, part, parts, seed, _ = jobs[j]
         sets = attr_sets(structs[-1][0], key, seed)[part::parts]
-        ctx.sample({"attributes": key, "model": text_of(structs[-1], sets[len(sets) // 2])})
+        ctx.sample({"attributes": key, "history": (hist_of(structs[-1]) or ["single pass"])[0], "model": text_of(structs[-1], sets[len(sets) // 2])})
     ctx.coverage.update(
         {
             "evaluations": programs,
@@ -592,6 +794,9 @@ def run(ctx):
             "distinct_programs": int(len(distinct)),
             "distinct_nontrivial": int(len(nt)),
             "nontrivial_with_negative_link": neg_nt,
+            "completed_by_a_later_pass": later,
+            "completed_by_a_later_pass_with_negative_link": later_neg,
+            "cpu_s": round(cpu, 1),
             "levels": levels,
             "eliminated_variables": elim,
             "surviving_variable_when_all_algebraic": canon,
@@ -600,9 +805,15 @@ def run(ctx):
             "exhaustive": True,
             "structure_sets": MODE_DOC,
             "attribute_sets": KEY_DOC,
+            "histories": HIST_DOC,
             "rule": "alias trees over v1..vn (v1 a state with der(v1) = 1 / algebraic / input, the others algebraic); a level is "
-            "(structure set, n, attribute sets) and every element of the product is run -- see `levels`, `structure_sets`, "
-            "`attribute_sets`. Numeric grids: min {-3, 1}, max {2, 6}, nominal {0.5, 4}, start 1.5 + 0.25 i (scaled per seed), "
+            "(structure set, n, attribute sets, history) and every element of the product is run -- see `levels`, `structure_sets`, "
+            "`attribute_sets`, `histories`. Attribute sets are either 'every set of <= k attributes' or merge matrices (one "
+            "profile per variable, every combination: start absent / a / b / -a / 0 / p / -p x fixed; bounds none / min / max / "
+            "both), so that every (survivor, alias) pair meets every combination the merge loop branches on whichever variable "
+            "pymoca keeps. Histories split the links into early and late ones; the late ones become alias equations only for "
+            "a second detect_aliases pass, and the same oracle is applied after the last pass (`completed_by_a_later_pass` "
+            "counts the programs in which a later pass eliminated a variable). Numeric grids: min {-3, 1}, max {2, 6}, nominal {0.5, 4}, start 1.5 + 0.25 i (scaled per seed), "
             "p evaluated at %r. Each program is generated and simplified with detect_aliases; alias_relation and Variable.aliases "
             "are compared with a signed union-find of the written equations, and min/max/nominal/fixed/start of every surviving "
             "variable with the statement's merge of its class, on the Variable and in variable_metadata_function. Non-trivial = "
@@ -614,7 +825,7 @@ def run(ctx):
         "which variable survives is read from the model, not prescribed; with several explicit alias starts any of them is "
         "accepted; a class mixing explicit and absent nominals may report the largest explicit one (absent = 0, pymoca) or "
         "max(1, that) (absent = 1, Modelica); exactly one of v1..vn is a state or an input; attributes are literals or the "
-        "single parameter p; whether every alias equation is detected is not demanded (C14/C15), only counted in "
+        "single parameter p (or -p); a late link `a = s b + 0` is taken to state a = s b; whether every alias equation is detected is not demanded (C14/C15), only counted in "
         "`eliminated_variables`"
     )
 
